@@ -46,4 +46,9 @@ CHECKS: dict[str, dict] = {
         "text": "Decides for every program: the removability predicate is exactly the conjunction 'all results unused, not a terminator, not a symbol, effects known, each effect a read or an allocation of a value defined inside the op' (unknown effects mean not removable); every erase site of the dce pattern, region_dce, the greedy applier and CSE is control-dependent on that predicate or on liveness derived from it; liveness marks an op live iff it is not removable-if-unused or a user is live, re-propagates into nested regions on every call and iterates until no change; erased ops are announced before erasure; the entry block is never erased; reachability follows possibly-unregistered terminators. Effect declarations of individual dialect operations (the trusted input of the predicate) are not decided.",
         "note": 'Trusted: MemoryEffect traits declared on operations are right; Python set semantics.',
     },
+    "C04": {
+        "technique": _T + 'regular-language inclusion / intersection-emptiness / right-quotient on re._parser ASTs, printer-parser section-order table agreement, unordered-iteration and scope-pairing rules',
+        "text": "Decides for every name hint and IR at once: the language of accepted name hints is included in the lexer's suffix-id language (with flags as compiled, Unicode-wide classes modelled); the image of extract_valid_name cannot collide with the names the printer generates ('<hint>_<n>', numbers, automatic bb<n> labels); the printer's identifier-or-string decision uses the lexer's own regex, which the lexer lexes as one token; the generic printer emits and the generic parser consumes the same sections in the same order; printing iterates no unordered collection; results of isolated-from-above ops are named in the enclosing scope and scopes are balanced. Round-trip of arbitrary verified modules, aliases and resource sections are not decided.",
+        "note": "Trusted: re._parser's AST of the patterns; the abstraction of non-ASCII characters into four atoms (letter, digit, space, other); the printer's naming scheme shape (checked, ANALYSIS-ERROR if it changes).",
+    },
 }
